@@ -203,11 +203,36 @@ def verdict(ctx, proof, prop):
             if ctx.tier != "search" and hasattr(prop, "search"):
                 print(f"  link broken ({[b['link'] for b in broken]}); searching for a failing input ...", flush=True)
                 sctx = Ctx(ctx.prop_id, "search", ctx.seed + 1)
-                sctx.deadline = time.time() + (180 if ctx.tier == "quick" else 900)
+                budget = 180 if ctx.tier == "quick" else 900
+                sctx.deadline = time.time() + budget
+                # the budget is enforced here (an alarm in the main thread), so that no search generator has to poll it;
+                # what the search found before the alarm is kept
+                import signal
+
+                class _SearchBudget(Exception):
+                    pass
+
+                def _alarm(signum, frame):
+                    raise _SearchBudget()
+                old_handler = None
+                try:
+                    old_handler = signal.signal(signal.SIGALRM, _alarm)
+                    signal.alarm(budget)
+                except ValueError:
+                    old_handler = None          # (not the main thread)
                 try:
                     prop.search(sctx, broken)
+                except _SearchBudget:
+                    print(f"  search budget of {budget} s used up after {sctx.evals} evaluations", flush=True)
                 except Exception:
                     traceback.print_exc()
+                finally:
+                    try:
+                        signal.alarm(0)
+                        if old_handler is not None:
+                            signal.signal(signal.SIGALRM, old_handler)
+                    except ValueError:
+                        pass
                 for f in sctx.oracle_failures:
                     hit = False
                     for kf in open_findings:
